@@ -941,3 +941,149 @@ def rule_dfg(ctx):
             ctx.ob("dfg", f, f.node, "fasthash32", "fasthash32 == uint32(h - (h >> 32)) of fasthash64(key, seed)", d is None, "" if d is None else d)
     except HB.HUndecided as u:
         ctx.ob("dfg", f, f.node, "fasthash32", "result term computable", None, str(u))
+
+
+# ---------------------------------------------------------------------------
+# C14 seeddep: the row hash really is a function of its seed, on every path
+# ---------------------------------------------------------------------------
+
+class _DepUndecided(Exception):
+    pass
+
+
+class _MustDeps:
+    """Definite syntactic dependencies of a function's return values on its parameters, path by path.
+
+    env: local name -> frozenset of parameter names its current value is computed from.  Branches fork; a loop may run 0, 1, 2, ...
+    times and every such exit state is kept (until the states repeat).  A return value that does not syntactically depend on a parameter
+    cannot depend on it at run time, so `param not in deps` on some path is a sound witness of independence; the converse is not
+    claimed."""
+
+    def __init__(self, model, func, depth=0):
+        self.model, self.func, self.depth = model, func, depth
+        self.rets = []       # (lineno, frozenset)
+
+    def run(self):
+        env = {p: frozenset([p]) for p in self.func.params}
+        self.block(self.func.body(), [env])
+        return self.rets
+
+    def deps(self, e, env):
+        out = set()
+        for n in ast.walk(e):
+            if isinstance(n, ast.Name) and isinstance(n.ctx, ast.Load) and n.id in env:
+                out |= env[n.id]
+            elif isinstance(n, (ast.Lambda, ast.ListComp, ast.GeneratorExp, ast.SetComp, ast.DictComp)):
+                raise _DepUndecided("expression `%s`" % unparse(n, 40))
+        # a helper of the same module whose result ignores one of its arguments: follow it one level
+        if isinstance(e, ast.Call) and isinstance(e.func, ast.Name) and self.depth < 3:
+            callee = self.model.lookup_func(self.func.module, e.func.id)
+            if callee is not None and len(callee.params) == len(e.args) and not e.keywords:
+                sub = _MustDeps(self.model, callee, self.depth + 1)
+                try:
+                    rets = sub.run()
+                except _DepUndecided:
+                    rets = None
+                if rets:
+                    used = frozenset.intersection(*[r for _, r in rets])
+                    out = set()
+                    for p, a in zip(callee.params, e.args):
+                        if p in used:
+                            out |= self.deps(a, env)
+        return frozenset(out)
+
+    def block(self, stmts, envs):
+        for s in stmts:
+            nxt = []
+            for env in envs:
+                nxt.extend(self.stmt(s, env))
+            # dedupe
+            seen, envs = set(), []
+            for env in nxt:
+                k = tuple(sorted((n, tuple(sorted(v))) for n, v in env.items()))
+                if k not in seen:
+                    seen.add(k)
+                    envs.append(env)
+            if len(envs) > 4096:
+                raise _DepUndecided("too many paths")
+        return envs
+
+    def assign(self, t, d, env):
+        if isinstance(t, ast.Name):
+            env[t.id] = d
+        elif isinstance(t, (ast.Tuple, ast.List)):
+            for x in t.elts:
+                self.assign(x, d, env)
+        elif isinstance(t, ast.Subscript) and isinstance(t.value, ast.Name):
+            env[t.value.id] = env.get(t.value.id, frozenset()) | d | self.deps(t.slice, env)
+        else:
+            raise _DepUndecided("assignment target `%s`" % unparse(t, 40))
+
+    def stmt(self, s, env):
+        if isinstance(s, ast.Assign):
+            env = dict(env)
+            d = self.deps(s.value, env)
+            for t in s.targets:
+                self.assign(t, d, env)
+            return [env]
+        if isinstance(s, ast.AnnAssign):
+            env = dict(env)
+            if s.value is not None:
+                self.assign(s.target, self.deps(s.value, env), env)
+            return [env]
+        if isinstance(s, ast.AugAssign):
+            env = dict(env)
+            d = self.deps(s.value, env) | self.deps(s.target, env) if not isinstance(s.target, ast.Name) else self.deps(s.value, env) | env.get(s.target.id, frozenset())
+            self.assign(s.target, d, env)
+            return [env]
+        if isinstance(s, ast.If):
+            return self.block(s.body, [dict(env)]) + self.block(s.orelse, [dict(env)])
+        if isinstance(s, (ast.For, ast.While)):
+            outs, cur = [env], [env]
+            for _ in range(6):
+                start = []
+                for e in cur:
+                    e = dict(e)
+                    if isinstance(s, ast.For):
+                        self.assign(s.target, self.deps(s.iter, e), e)
+                    start.append(e)
+                cur = self.block(s.body, start)
+                new = [e for e in cur if e not in outs]
+                if not new:
+                    break
+                outs.extend(new)
+                cur = new
+            else:
+                raise _DepUndecided("loop does not stabilise")
+            if s.orelse:
+                return self.block(s.orelse, outs)
+            return outs
+        if isinstance(s, ast.Return):
+            self.rets.append((s.lineno, self.deps(s.value, env) if s.value is not None else frozenset()))
+            return []
+        if isinstance(s, (ast.Expr, ast.Pass, ast.Assert)):
+            return [env]
+        if isinstance(s, ast.Raise):
+            return []
+        if isinstance(s, (ast.Break, ast.Continue)):
+            # leaving the body early: the state flows to the loop exit / next iteration; approximated by keeping it as a body result
+            return [env]
+        raise _DepUndecided("statement %s" % type(s).__name__)
+
+
+def rule_seeddep(ctx):
+    """Every return of the row hash depends on the seed (and on the key): a hash that ignores its seed on some path gives every
+    row the same column for the keys that take that path."""
+    F = facts_of(ctx)
+    f = ctx.model.func("hashes", "fasthash64")
+    ctx.analysed_funcs.add(f.key)
+    keyp = next((p for p, t in f.ptypes.items() if t.kind == "bytes"), f.params[0])
+    seedp = next((p for p in f.params if p != keyp), None)
+    try:
+        rets = _MustDeps(ctx.model, f).run()
+    except _DepUndecided as u:
+        ctx.ob("seeddep", f, f.node, "%s(%s, %s)" % (f.name, keyp, seedp), "dependencies of the result are computable", None, str(u))
+        return
+    bad_seed = sorted({ln for ln, d in rets if seedp not in d})
+    ctx.ob("seeddep", f, f.node, "%s: %d return paths" % (f.name, len(rets)), "on every path the result is computed from the seed", bool(rets) and not bad_seed,
+           "" if not bad_seed else "on some path to the return at line %s the result is not computed from `%s`: all rows get the same column for those keys" % (bad_seed[0], seedp))
